@@ -15,10 +15,15 @@ impl IoWrapper {
 
     /// A wrapper without a reader thread: the verification driver owns stdin itself.
     #[cfg(jence_verif)]
-    pub fn verif_detached() -> Self {
+    pub fn verif_detached() -> (Self, mpsc::Sender<String>) {
         let (tx, rx) = mpsc::channel::<String>();
-        std::mem::forget(tx);
-        Self { receiver: rx, deferred: RefCell::new(VecDeque::new()) }
+        (Self { receiver: rx, deferred: RefCell::new(VecDeque::new()) }, tx)
+    }
+
+    /// Empties the deferred queue (what the command loop would read next).
+    #[cfg(jence_verif)]
+    pub fn verif_take_deferred(&self) -> Vec<String> {
+        self.deferred.borrow_mut().drain(..).collect()
     }
 
     pub fn try_read_line(&self) -> Option<String> {
